@@ -16,7 +16,7 @@
 """Utility functions for graph transformations."""
 
 import dataclasses
-from typing import Union
+from typing import Optional, Union
 
 import numpy as np
 
@@ -133,6 +133,7 @@ def add_new_activation_tensor(
     shape: list[int],
     tensor_type: schema_py_generated.TensorType,
     subgraph: schema_py_generated.SubGraphT,
+    shape_signature: Optional[list[int]] = None,
 ) -> int:
   """Add a new activation tensor to the model.
 
@@ -141,12 +142,16 @@ def add_new_activation_tensor(
     shape: The shape of the new tensor.
     tensor_type: The type of the new tensor.
     subgraph: The subgraph where the new tensor is added.
+    shape_signature: The shape signature (dynamic dimensions as -1) of the new
+      tensor, if any.
 
   Returns:
     The index of the new tensor in the subgraph.
   """
   new_tensor = schema_py_generated.TensorT()
   new_tensor.shape = shape
+  if shape_signature is not None:
+    new_tensor.shapeSignature = shape_signature
   new_tensor.type = tensor_type
   new_tensor.name = tensor_name
   new_tensor.buffer = 0
